@@ -434,4 +434,95 @@ theorem hasHelloScan_render (L : Layout) (tail : Bytes) (h : L.OK) :
   rw [closeTag_hit L.pfx nmHelloGt tail hp (plain_nmHelloGt tail) lower_nmHelloGt]
   rfl
 
+/-! ## the pattern as it stood (no prefix on session-id): every prefixed hello loses its session-id -/
+
+theorem toLowerB_word_ne_dash (b : UInt8) (h : isWord b = true) : (toLowerB b == 45) = false := by
+  have : toLowerB b ≠ 45 := by
+    unfold toLowerB
+    split <;> (try decide)
+    intro hb; subst hb; exact absurd h (by decide)
+  simpa using this
+
+/-- a prefixed element name is never the bare name `session-id>` -/
+theorem ci_prefixed_sid (p X : Bytes) (hne : p ≠ []) (hp : WordPfx p) :
+    hasPrefixCI (p ++ 58 :: X) nmSid = false := by
+  have hc : ∀ x : UInt8, x ∈ [115,101,115,115,105,111,110,45,105,100,62] → (toLowerB 58 == x) = false := by
+    decide
+  rcases p with _ | ⟨a0, _ | ⟨a1, _ | ⟨a2, _ | ⟨a3, _ | ⟨a4, _ | ⟨a5, _ | ⟨a6, _ | ⟨a7, t⟩⟩⟩⟩⟩⟩⟩⟩
+  · exact absurd rfl hne
+  all_goals simp only [nmSid, List.cons_append, List.nil_append, hasPrefixCI]
+  all_goals first
+    | (have h7 := toLowerB_word_ne_dash a7 (hp a7 (by simp)); simp [h7])
+    | simp [hc]
+
+theorem openTag_false_prefixed (p name X : Bytes) (hne : p ≠ []) (hp : WordPfx p) :
+    openTag false nmSid (otag p name ++ X) = none := by
+  have e : otag p name ++ X = 60 :: (p ++ 58 :: (name ++ X)) := by
+    cases p with
+    | nil => exact absurd rfl hne
+    | cons a t => simp [otag, pfxB]
+  rw [e]
+  unfold openTag
+  simp [ci_prefixed_sid p (name ++ X) hne hp]
+
+theorem junk_sidFalse_otag (p name extra : Bytes) (hne : p ≠ []) (hp : WordPfx p)
+    (hname : ∀ b ∈ name, b ≠ 60) (hextra : ∀ b ∈ extra, b ≠ 60) :
+    Junk (sidAt false) (otag p name ++ extra) :=
+  junk_otag (sidAt_not_lt false) p name extra hp hname hextra fun _ =>
+    sidAt_of_open_none (openTag_false_prefixed p name _ hne hp)
+
+theorem noLT_qmark (x : Bytes) (hx : ∀ b ∈ x, b ≠ 60) : ∀ b ∈ (63 : UInt8) :: x, b ≠ 60 := by
+  intro b hb
+  simp only [List.mem_cons] at hb
+  rcases hb with hb | hb
+  · subst hb; decide
+  · exact hx b hb
+
+theorem sidScan_asIs_prefixed (L : Layout) (tail : Bytes) (h : L.OK) (ht : ∀ b ∈ tail, b ≠ 60)
+    (hne : L.pfx ≠ []) : sidScan false (render L ++ tail) = none := by
+  have hp := h.pfx
+  have hcaps : Junk (sidAt false) (capsR L.pfx L.caps) := by
+    have hc := h.caps
+    generalize L.caps = caps at hc
+    induction caps with
+    | nil => exact junk_nil _
+    | cons c cs ih =>
+      obtain ⟨h1, _, h3⟩ := hc c (by simp)
+      have e : capsR L.pfx (c :: cs)
+          = (otag L.pfx nmCap ++ c.1) ++ ((ctag L.pfx nmCap ++ c.2) ++ capsR L.pfx cs) := by
+        simp [capsR, capEl, List.append_assoc]
+      rw [e]
+      exact junk_append (junk_sidFalse_otag _ _ _ hne hp noLT_names.2.2.1 h1)
+        (junk_append (junk_ctag (junk_sidAt_slash false) _ _ _ hp noLT_names.2.2.1 h3)
+          (ih (fun x hx => hc x (by simp [hx]))))
+  have hsid : Junk (sidAt false) (sidR L.pfx L.sid L.ws4) := by
+    cases hs : L.sid with
+    | none => exact junk_nil _
+    | some ds =>
+      have e : sidR L.pfx (some ds) L.ws4 = (otag L.pfx nmSid ++ ds) ++ (ctag L.pfx nmSid ++ L.ws4) := by
+        simp [sidR, List.append_assoc]
+      rw [e]
+      exact junk_append (junk_sidFalse_otag _ _ _ hne hp noLT_names.2.2.2.2
+          (fun b hb => isDigit_ne_lt ((h.sid ds hs).2 b hb)))
+        (junk_ctag (junk_sidAt_slash false) _ _ _ hp noLT_names.2.2.2.2 h.ws4)
+  have e : render L ++ tail =
+      (declB L.decl ++ (L.ws0 ++ ((otag L.pfx nmHello ++ (L.attrs ++ [62])) ++ (L.ws1 ++
+        ((otag L.pfx nmCaps ++ []) ++ (L.ws2 ++ (capsR L.pfx L.caps ++ ((ctag L.pfx nmCaps ++ L.ws3) ++
+          (sidR L.pfx L.sid L.ws4 ++ (ctag L.pfx nmHelloGt ++ tail)))))))))) ++ [] := by
+    simp [render, List.append_assoc]
+  unfold sidScan
+  rw [e, firstSome_junk]
+  · simp [firstSome, sidAt, openTag_nil]
+  · refine junk_append (junk_declB _ _ (fun x hx => junk_sidAt_nonword false 63 x (by decide) (by decide)
+        (noLT_qmark x hx)) h.decl)
+      (junk_append (junk_noLT (sidAt_not_lt false) _ h.ws0)
+        (junk_append (junk_sidFalse_otag _ _ _ hne hp noLT_names.1 (attrs_noLT h.attrs))
+          (junk_append (junk_noLT (sidAt_not_lt false) _ h.ws1)
+            (junk_append (junk_sidFalse_otag _ _ _ hne hp noLT_names.2.2.2.1 (by simp))
+              (junk_append (junk_noLT (sidAt_not_lt false) _ h.ws2)
+                (junk_append hcaps
+                  (junk_append (junk_ctag (junk_sidAt_slash false) _ _ _ hp noLT_names.2.2.2.1 h.ws3)
+                    (junk_append hsid
+                      (junk_ctag (junk_sidAt_slash false) _ _ _ hp noLT_names.2.1 ht)))))))))
+
 end Scrapli.Netconf.Hello
